@@ -378,8 +378,143 @@ def check(case, ctx: Ctx):
 
 
 # ------------------------------------------------------------------------------------------------------------
+# minimisation (Hypothesis' shrinker needs minutes at ~0.2 s per evaluation: a bounded structural ddmin instead)
+def _without(d, *keys):
+    return {k: v for k, v in d.items() if k not in keys}
+
+
+def _refers_to(comp, name):
+    pat = re.compile(r"(^|[ .])%s(/|:)" % re.escape(name))
+    return any(pat.search(r) for r in comp.get("references", [])) or \
+        any(pat.search(str(v)) for v in (comp.get("bindings") or {}).values())
+
+
+def _candidates(case):
+    import copy
+    h = case["history"]
+    ncyc = sum(1 for x in h if x[0] == "cycle")
+    for i in range(len(h)):
+        if h[i][0] != "cycle" or ncyc > 1:
+            yield dict(case, history=h[:i] + h[i + 1:])
+    for i in range(len(case["user_vars"])):
+        yield dict(case, user_vars=case["user_vars"][:i] + case["user_vars"][i + 1:])
+        uv = case["user_vars"][i]
+        for scope in ("global", "stages"):
+            if scope in uv and len(uv) > 1:
+                yield dict(case, user_vars=case["user_vars"][:i] + [_without(uv, scope)] + case["user_vars"][i + 1:])
+        for name in list(uv.get("global", {})):
+            if len(uv["global"]) > 1:
+                u2 = dict(uv, **{"global": _without(uv["global"], name)})
+                yield dict(case, user_vars=case["user_vars"][:i] + [u2] + case["user_vars"][i + 1:])
+    F = case["flowir"]
+    comps = F["components"]
+    if case["dowhile"]:
+        names = [c["name"] for c in case["dowhile"]["components"]]
+        keep = []
+        for c in comps:
+            if "$import" in c:
+                continue
+            c = copy.deepcopy(c)
+            refs = [r for r in c.get("references", []) if not any(_refers_to({"references": [r]}, n) for n in names)]
+            gone = set(c.get("references", [])) - set(refs)
+            if gone:
+                c["references"] = refs
+                c["command"]["arguments"] = " ".join(t for t in c["command"]["arguments"].split() if t not in gone)
+            keep.append(c)
+        yield dict(case, dowhile=None, flowir=dict(F, components=keep), history=[x for x in h if x[0] != "iter"])
+    if "blueprint" in F:
+        yield dict(case, flowir=_without(F, "blueprint"))
+    if G.OTHER in F.get("platforms", []):
+        F2 = copy.deepcopy(F)
+        F2["platforms"] = [p for p in F2["platforms"] if p != G.OTHER]
+        for sec in ("variables", "blueprint"):
+            (F2.get(sec) or {}).pop(G.OTHER, None)
+        for c in F2["components"]:
+            (c.get("override") or {}).pop(G.OTHER, None)
+            if c.get("override") == {}:
+                del c["override"]
+        yield dict(case, flowir=F2)
+    V = F.get("variables", {})
+    for plat in list(V):
+        if plat != "default":
+            yield dict(case, flowir=dict(F, variables=_without(V, plat)))
+        for scope in ("stages", "global"):
+            if scope in V[plat] and not (plat == "default" and scope == "global"):
+                yield dict(case, flowir=dict(F, variables=dict(V, **{plat: _without(V[plat], scope)})))
+        for s in list(V[plat].get("stages", {})):
+            for name in list(V[plat]["stages"][s]):
+                if not name.startswith("nrep"):
+                    V2 = copy.deepcopy(V)
+                    del V2[plat]["stages"][s][name]
+                    yield dict(case, flowir=dict(F, variables=V2))
+        for name, val in list(V[plat].get("global", {}).items()):
+            if plat != "default" and not name.startswith("nrep"):
+                V2 = copy.deepcopy(V)
+                del V2[plat]["global"][name]
+                yield dict(case, flowir=dict(F, variables=V2))
+            elif plat == "default" and not name.startswith("nrep") and name != G.NUMVAR and val != "x":
+                V2 = copy.deepcopy(V)
+                V2[plat]["global"][name] = "x"
+                yield dict(case, flowir=dict(F, variables=V2))
+    for i, c in enumerate(comps):
+        if "$import" in c:
+            continue
+        others = comps[:i] + comps[i + 1:]
+        if not any(_refers_to(o, c["name"]) for o in others):
+            yield dict(case, flowir=dict(F, components=others))
+        for key in ("override", "variables", "workflowAttributes", "resourceManager"):
+            if key in c and not (key == "variables" and "%(cv)s" in c["command"].get("arguments", "")):
+                yield dict(case, flowir=dict(F, components=comps[:i] + [_without(c, key)] + comps[i + 1:]))
+        toks = c["command"].get("arguments", "").split()
+        for j, t in enumerate(toks):
+            if t not in c.get("references", []):
+                c2 = copy.deepcopy(c)
+                c2["command"]["arguments"] = " ".join(toks[:j] + toks[j + 1:])
+                yield dict(case, flowir=dict(F, components=comps[:i] + [c2] + comps[i + 1:]))
+        for r in c.get("references", []):
+            c2 = copy.deepcopy(c)
+            c2["references"] = [x for x in c["references"] if x != r]
+            c2["command"]["arguments"] = " ".join(t for t in toks if t != r)
+            yield dict(case, flowir=dict(F, components=comps[:i] + [c2] + comps[i + 1:]))
+
+
+def minimize(v: Violation, ctx: Ctx, max_runs=150):
+    best = v
+    runs = 0
+    progress = True
+    while progress and runs < max_runs:
+        progress = False
+        for cand in _candidates(best.case):
+            if runs >= max_runs:
+                break
+            runs += 1
+            try:
+                check(cand, _Quiet(ctx))
+            except Violation as v2:
+                if v2.sig == v.sig:
+                    v2.case = cand
+                    best = v2
+                    progress = True
+                    break
+            except Exception:
+                pass
+    return best
+
+
+class _Quiet:
+    """A context whose recorder is thrown away (minimisation must not count as coverage)."""
+
+    def __init__(self, ctx: Ctx):
+        from ..core import Recorder
+        self._ctx = ctx
+        self.rec = Recorder()
+
+    def __getattr__(self, name):
+        return getattr(self._ctx, name)
+
+
 def shard(ctx: Ctx):
-    explore(ctx, "roundtrip", G.cases(), check, ctx.n(900, 30000), batch=30)
+    explore(ctx, "roundtrip", G.cases(), check, ctx.n(2400, 60000), batch=30, shrink=False, minimize=minimize)
 
 
 def replay(sub, case, ctx: Ctx):
